@@ -70,6 +70,7 @@ class Pipe:
         self.capacity = capacity
         self.inflight = 0
         self.last_arrival = 0
+        self.rate_free = 0
         #: wire tap: list of (seq, time, bytes)
         self.tap = []
         self.total = 0
@@ -125,15 +126,21 @@ class SimSocketBase:
     def getsockopt(self, *_args):
         return 0
 
+    def _addr_out(self, addr):
+        ''' Socket address as the kernel hands it out: IPv6 addresses carry flow info and scope id. '''
+        if int(self.family) == int(_real_socket.AF_INET6):
+            return tuple(addr[:2]) + (0, 0)
+        return addr
+
     def getsockname(self):
         if self.laddr is None:
-            return ('0.0.0.0', 0)
-        return self.laddr
+            return self._addr_out(('::' if int(self.family) == int(_real_socket.AF_INET6) else '0.0.0.0', 0))
+        return self._addr_out(self.laddr)
 
     def getpeername(self):
         if self.raddr is None:
             raise OSError(errno.ENOTCONN, 'Transport endpoint is not connected')
-        return self.raddr
+        return self._addr_out(self.raddr)
 
     def __repr__(self):
         return '<%s fd=%s laddr=%s raddr=%s>' % (type(self).__name__, self.fileno(), self.laddr, self.raddr)
@@ -214,7 +221,7 @@ class StreamSock(SimSocketBase):
             raise BlockingIOError(errno.EAGAIN, 'Resource temporarily unavailable')
         srv = self.accept_q.pop(0)
         self.net.world.log('tcp-accept', srv.conn.cid)
-        return (srv, srv.raddr)
+        return (srv, srv._addr_out(srv.raddr))
 
     # -- readiness -------------------------------------------------------
     def _sim_poll(self):
@@ -316,11 +323,19 @@ class StreamSock(SimSocketBase):
             else:
                 cut = len(data) - 8
                 chunks = [data[:cut]] + [data[ix:ix + 1] for ix in range(cut, len(data))]
+        rate = prof.get('tcp_rate')
+        if rate:
+            # slow link: at most ``rate`` octets per second, arriving in pieces of a tenth of a second's worth
+            piece = max(1, int(rate) // 10)
+            chunks = [part[ix:ix + piece] for part in chunks for ix in range(0, len(part), piece)]
         when = wld.now + lat
         for (ix, chunk) in enumerate(chunks):
             if ix:
                 when += 1 + wld.ch.pick('chunk.gap', 3) * (lat // 2 + 1) if mode != 2 else 1
             when = max(when, pipe.last_arrival, pipe.stall_until)
+            if rate:
+                when = max(when, pipe.rate_free)
+                pipe.rate_free = when + len(chunk) * 10**6 // int(rate)
             pipe.last_arrival = when
             pipe.inflight += len(chunk)
             pipe.queue.append(chunk)
